@@ -293,6 +293,7 @@ pub fn exec(line: &str) -> String {
             p_readd(k.parse().unwrap_or(1), idx.parse().unwrap_or(0), &srcs)
         }
         ["p_display_wide", n] => p_display_wide(n.parse().unwrap_or(1000)),
+        ["p_wide_algebra", n] => p_wide_algebra(n.parse().unwrap_or(1000)),
         ["p_cycle", rest @ ..] => {
             let mut srcs = Vec::new();
             for h in rest {
@@ -843,6 +844,49 @@ fn p_display_wide(n: usize) -> String {
                 }
                 return format!("violated: member {k} of a {n}-member object does not print as its own Display text; found `{here}`");
             }
+        }
+    }
+    "ok".into()
+}
+
+/// the algebra on ONE birthday-sized object (n members of pairwise different shapes): reflexivity, optional widening,
+/// a single incompatible member, idempotent merge, round trip through serde — for anything keyed by a hash
+fn p_wide_algebra(n: usize) -> String {
+    use std::collections::BTreeMap;
+    let member = |i: usize| -> JsonShape {
+        let mut c = BTreeMap::new();
+        c.insert(format!("m{i}"), JsonShape::Number { optional: i % 2 == 1 });
+        let o = JsonShape::Object { content: c, optional: i % 3 == 0 };
+        if i % 5 == 0 { JsonShape::Array { r#type: Box::new(o), optional: false } } else { o }
+    };
+    let mut content = BTreeMap::new();
+    for i in 0..n {
+        content.insert(format!("k{i:07}"), member(i));
+    }
+    let big = JsonShape::Object { content: content.clone(), optional: false };
+    let opt = json_shape::verif::as_optional(big.clone());
+    if !big.is_subset(&big) {
+        return "violated: a wide object is not a subset of itself".into();
+    }
+    if !big.is_subset(&opt) {
+        return "violated: a wide object is not a subset of its optional form".into();
+    }
+    for probe in [0usize, n / 3, n / 2, n - 1] {
+        let mut other = content.clone();
+        other.insert(format!("k{probe:07}"), JsonShape::String { optional: false });
+        if big.is_subset(&JsonShape::Object { content: other, optional: false }) {
+            return format!("violated: a wide object is reported a subset of one whose member k{probe:07} is a String");
+        }
+    }
+    match json_shape::verif::merger(big.clone(), big.clone()) {
+        Ok(m) if m == big => {}
+        Ok(_) => return "violated: merging a wide object with itself changes it".into(),
+        Err(e) => return format!("violated: merging a wide object with itself fails: {e}"),
+    }
+    if n <= 50_000 {
+        match serde_json::to_string(&big).ok().and_then(|t| serde_json::from_str::<JsonShape>(&t).ok()) {
+            Some(b) if b == big => {}
+            _ => return "violated: a wide object does not round-trip through serde".into(),
         }
     }
     "ok".into()
